@@ -357,6 +357,9 @@ func genRetry(rt *rapid.T, p *plan) {
 		}
 		m := retryModel(r) // attempt k parks (script beyond the end)
 		lo := m[k].thi
+		if k >= 1 && lo <= m[k-1].fhi {
+			lo = m[k-1].fhi + 1 // zero delay: E must not tie with the previous attempt's failure
+		}
 		switch rapid.IntRange(0, 3).Draw(rt, "k_kind") {
 		case 0, 1:
 			r.Attempts = append(r.Attempts, attemptPlan{Kind: "block"})
@@ -369,7 +372,7 @@ func genRetry(rt *rapid.T, p *plan) {
 			if a.Kind == "block" {
 				a = genRetryFail(rt, r, "ak")
 			}
-			a.Hold = (m[k].thi - m[k].tlo) + 1 + genDur(rt, "ak_hold", day)
+			a.Hold = (lo - m[k].tlo) + 1 + genDur(rt, "ak_hold", day) // fails strictly after lo for every jitter value
 			if a.Kind == "hdr_block" {
 				a.Hold = 0
 			}
